@@ -24,7 +24,7 @@ build=ok; go build ./... >/dev/null 2>&1 || build=FAIL
 with=$(eval "$run" 2>&1 | tail -3 | tr '\n' ' ')
 withrc=pass; echo "$with" | grep -q "^ok\| ok " || withrc=fail
 rm -f "$pkgdir/zz_seed_test.go"
-base=$(/tmp/tools/baseline_compare.sh $wt 2>&1 | head -1)
+base=$(/verif/tools/baseline_compare.sh $wt 2>&1 | head -1)
 git checkout -q -- .
 cp "$seed/demo_test.go" "$pkgdir/zz_seed_test.go"
 without=$(eval "$run" 2>&1 | tail -3 | tr '\n' ' ')
